@@ -1569,7 +1569,7 @@ class Solid:
                 is_cordon = True
             elif v.name == 'color':
                 editor_color = Vec.from_str(v.value, 255, 255, 255)
-            elif v.name == 'group':
+            elif v.name in ('groupid', 'group'):
                 group_id = int(v.value)
             elif v.name == 'visgroupid':
                 try:
@@ -2708,7 +2708,7 @@ class Entity(MutableMapping[str, str]):
                             logical_pos = editor_prop.value
                         elif editor_prop.name == 'comments':
                             comment = editor_prop.value
-                        elif editor_prop.name == 'group':
+                        elif editor_prop.name in ('groupid', 'group'):
                             group_ids.append(int(editor_prop.value))
                         elif editor_prop.name == 'visgroupid':
                             try:
